@@ -94,11 +94,20 @@ pub trait BlsTimeCrypt:
             let len = uint_zigzag::Uint::try_from(&plaintext[..overhead])
                 .unwrap()
                 .0 as usize;
+            // only the length prefix that `seal` writes is accepted, otherwise a modified
+            // payload (e.g. a padded varint) would still decode to the same message
+            let expected = uint_zigzag::Uint::from(len).to_vec();
+            if expected.as_slice() != &plaintext[..overhead] {
+                return CtOption::new(w.to_vec(), 0u8.into());
+            }
             if len <= plaintext.len() - overhead {
                 message = plaintext[overhead..overhead + len].to_vec();
             } else {
                 return CtOption::new(w.to_vec(), 0u8.into());
             }
+        } else {
+            // a payload without a complete length prefix is malformed
+            return CtOption::new(w.to_vec(), 0u8.into());
         }
 
         let msg_dst = Sha256::digest(&message);
